@@ -22,6 +22,9 @@ type item struct {
 type FileQueue struct {
 	Home   string
 	Offset int64
+	// serializes the appends to the tmp file: Offset and the file tail are shared by all writers (chain lock
+	// holders, confirm goroutines and the sync goroutine's After hook)
+	putLock sync.Mutex
 
 	IndexRW sync.RWMutex
 	Index   map[string]*item
@@ -273,6 +276,9 @@ func (queue *FileQueue) Put(flag uint32, key []byte, val []byte) error {
 		return err
 	}
 
+	queue.putLock.Lock()
+	defer queue.putLock.Unlock()
+
 	path := queue.path()
 
 	// TODO del tmp file.
@@ -296,6 +302,9 @@ func (queue *FileQueue) PutBatch(items []*BatchItem) error {
 
 	path := queue.path()
 	totalBuf := queue.mergeBatchItems(tmpBuf)
+
+	queue.putLock.Lock()
+	defer queue.putLock.Unlock()
 	queue.emptyFile(path)
 	_, err = FileUtilsFlush(path, queue.Offset, totalBuf)
 	if err != nil {
